@@ -87,29 +87,7 @@ def layout(chk, repo):
     col = am.methods.get("collect")
     need(col is not None, "ArrayMap.collect vanished")
     chk.analysed(am.qualname + ".collect")
-    app = find("collection.append((fmtsize(v.fmt), prog, k))", col)
-    chk.ob("R08.2", am.qualname + ".collect", "reserves fmtsize(format) of "
-           "the descriptor it records", len(app) == 1, col,
-           "(fmtsize(v.fmt), prog, k)")
-    srt = find("collection.sort(key=lambda t: t[0], reverse=True)", col)
-    chk.ob("R08.2", am.qualname + ".collect", "largest first", len(srt) == 1,
-           col, "sizes are powers of two: descending order aligns every "
-           "slot naturally")
-    adv = [s for s in walk_no_nested(col) if isinstance(s, ast.For)
-           and match("collection", s.iter) is not None]
-    ok = len(adv) == 1 and bool(find("prog.__dict__[name] = position",
-                                     adv[0], mode="stmt")) and bool(find(
-        "position += size", adv[0], mode="stmt"))
-    if ok:
-        body = adv[0].body
-        i1 = [i for i, s in enumerate(body) if match_stmt(
-            "prog.__dict__[name] = position", s) is not None]
-        i2 = [i for i, s in enumerate(body) if match_stmt(
-            "position += size", s) is not None]
-        ok = i1 and i2 and i1[0] < i2[0]
-    chk.ob("R08.2", am.qualname + ".collect", "offset recorded, then "
-           "advanced by the reserved size", bool(ok), col,
-           "position is stored before it is advanced")
+    layout_semantic(chk, repo)
     cm = am.methods.get("create_map")
     ok = cm is not None and bool(find(
         "create_map(MapType.ARRAY, 4, self.size, 1, MapFlags.MMAPABLE)", cm)
@@ -143,57 +121,145 @@ def layout(chk, repo):
            "for x")
 
 
+def _prog(classes, subs=()):
+    """an abstract program object: class hierarchy given as the list of
+    class dictionaries, most derived first"""
+    return Obj(None, {
+        "__class__": Obj(None, {"__mro__": tuple(
+            Obj(None, {"__dict__": dict(d)}) for d in classes)}),
+        "__dict__": {}, "subprograms": list(subs)})
+
+
+def layout_semantic(chk, repo):
+    """R08.2 / R08.3 by abstract execution (sa/evalx.py) of
+    ArrayMap.collect on a family of program objects: the rule looks at the
+    layout that comes out, not at how collect() is written"""
+    import itertools
+    am = repo.cls(A + "ArrayMap")
+    dc = repo.cls(A + "ArrayGlobalVarDesc")
+    col = am.methods["collect"]
+    sym = am.qualname + ".collect"
+    ev = Evaluator(repo, am.module, am)
+    fsz = lambda f: 8 if f == "x" else calcsize(f)
+    pool = ["B", "H", "I", "Q", "x"]
+    problems = {"overlap": [], "align": [], "bounds": [], "foreign": [],
+                "missing": [], "size": []}
+    runs = 0
+    scalar = set(pool)
+    combos = list(itertools.product(pool, repeat=3)) + list(
+        itertools.permutations(["64I", "3H", "BI", "HQ", "B", "Q"], 3))
+    for fa, fb, fc in combos:
+        for shadow in ("B", "Q"):
+            me, other = Obj(am, {}), Obj(am, {})
+            d = lambda m, f: Obj(dc, {"map": m, "fmt": f})
+            sub = _prog([{"s1": d(me, fc), "s2": d(other, "Q"),
+                          "s3": d(me, "B")}])
+            top = _prog([{"a": d(me, fa), "b": d(me, fb), "n": 7,
+                          "o": d(other, "I")},
+                         {"a": d(me, shadow), "c": d(me, fc)}], [sub])
+            visible = {(0, "a"): fa, (0, "b"): fb, (0, "c"): fc,
+                       (1, "s1"): fc, (1, "s3"): "B"}
+            try:
+                total = ev.call_function(col, [me, top], cls=am)
+            except (Unknown, Raised) as e:
+                raise AnalysisError(f"{sym}: cannot be evaluated: {e}")
+            runs += 1
+            tag = f"a:{fa} b:{fb} c:{fc} shadowed a:{shadow}"
+            dicts = [top.fields["__dict__"], sub.fields["__dict__"]]
+            spans = []
+            for (pi, name), fmt in visible.items():
+                pos = dicts[pi].get(name)
+                if not isinstance(pos, int) or isinstance(pos, bool):
+                    problems["missing"].append(f"{tag}: {name} has no "
+                                               f"offset")
+                    continue
+                spans.append((pos, pos + fsz(fmt), name, fmt))
+                if fmt in scalar and {fa, fb, fc} <= scalar and \
+                        pos % fsz(fmt):
+                    problems["align"].append(
+                        f"{tag}: {name} ({fmt}) at {pos}")
+            for name in ("o", "s2", "n"):
+                if name in dicts[0] or name in dicts[1]:
+                    problems["foreign"].append(
+                        f"{tag}: {name} was given an offset")
+            spans.sort()
+            for x, y in zip(spans, spans[1:]):
+                if y[0] < x[1]:
+                    problems["overlap"].append(
+                        f"{tag}: {x[2]} ({x[3]}) [{x[0]},{x[1]}) and "
+                        f"{y[2]} ({y[3]}) [{y[0]},{y[1]})")
+            if not isinstance(total, int) or total % 8 or (
+                    spans and total < max(e for _, e, _, _ in spans)):
+                problems["bounds"].append(
+                    f"{tag}: size {total}, last slot ends at "
+                    f"{max(e for _, e, _, _ in spans) if spans else 0}")
+    chk.floor("R08.2", "layouts tabulated", runs, 250)
+    chk.ob("R08.2", sym, "no two variables of a map overlap, each reserving "
+           "fmtsize(format) of its visible declaration", not problems[
+               "overlap"], col, "; ".join(problems["overlap"][:2]) or
+           f"{runs} program hierarchies (scalar, array and tuple formats "
+           f"x 3 variables, a shadowed declaration, a subprogram, a second "
+           f"map)")
+    chk.ob("R08.2", sym, "every slot is naturally aligned", not problems[
+        "align"], col, "; ".join(problems["align"][:3]) or "offset % size "
+           "== 0: the verifier rejects misaligned map accesses")
+    chk.ob("R08.2", sym, "the size returned covers every slot and is a "
+           "multiple of 8", not problems["bounds"], col,
+           "; ".join(problems["bounds"][:3]) or "what create_map and mmap "
+           "use")
+    chk.ob("R08.3", sym, "every visible variable of this map has a slot, "
+           "in its own program object", not problems["missing"], col,
+           "; ".join(problems["missing"][:3]) or "top program and "
+           "subprogram")
+    chk.ob("R08.3", sym, "variables of other maps and plain attributes are "
+           "left alone", not problems["foreign"], col,
+           "; ".join(problems["foreign"][:3]) or "`v.map is self`")
+
+
 def dedup(chk, repo):
-    sites = [(A + "ArrayMap.collect", True),
-             (E + "SimulatedEBPF.__init__", False)]
-    for sym, per_prog in sites:
-        f = repo.func(sym)
-        chk.analysed(sym)
-        mro_loops = [s for s in walk_no_nested(f) if isinstance(s, ast.For)
-                     and "__mro__" in unparse(s.iter)]
-        need(len(mro_loops) == 1, f"{sym}: MRO loop not found")
-        ml = mro_loops[0]
-        ok_order = unparse(ml.iter).endswith("__mro__")
-        chk.ob("R08.3", sym, "classes are walked from the most derived one",
-               ok_order, ml, f"iterates `{unparse(ml.iter)}`: the first "
-               f"class that declares a name is the one attribute lookup "
-               f"finds; walking in another order records a shadowed "
-               f"declaration's size")
-        inner = [s for s in ast.walk(ml) if isinstance(s, ast.For)
-                 and "__dict__" in unparse(s.iter)]
-        need(len(inner) == 1, f"{sym}: loop over class attributes not found")
-        tests = [t for t in ast.walk(inner[0]) if isinstance(t, ast.Compare)
-                 and len(t.ops) == 1 and isinstance(t.ops[0], ast.NotIn)
-                 and isinstance(t.left, ast.Name)
-                 and isinstance(t.comparators[0], ast.Name)]
-        ok = len(tests) == 1
-        sname = unparse(tests[0].comparators[0]) if ok else None
-        chk.ob("R08.3", sym, "a name already seen is skipped", ok, inner[0],
-               "`k not in seen` guards the collection: an attribute "
-               "overridden in a subclass is laid out once")
-        if not ok:
-            continue
-        adds = find(f"{sname}.add({unparse(tests[0].left)})", inner[0])
-        chk.ob("R08.3", sym, "every collected name is remembered",
-               len(adds) == 1, inner[0], f"{sname}.add(k)")
-        inits = [s for s in walk_no_nested(f) if isinstance(s, ast.Assign)
-                 and unparse(s.targets[0]) == sname]
-        ok = len(inits) == 1 and match("set()", inits[0].value) is not None
-        where_ok = False
-        if ok:
-            p = inits[0]._parent
-            inside_mro = any(q is ml for q in parents(inits[0]))
-            if per_prog:
-                prog_loops = [q for q in parents(ml) if isinstance(q, ast.For)]
-                where_ok = not inside_mro and bool(prog_loops) and \
-                    p is prog_loops[0]
-            else:
-                where_ok = not inside_mro
-        chk.ob("R08.3", sym, "the seen-set lives across the classes of one "
-               "program object", ok and where_ok, inits[0] if inits else f,
-               "initialised once per object, outside the loop over its MRO "
-               "(re-initialising it per class collects an overridden "
-               "variable twice; the name then points at the smaller slot)")
+    """one slot per visible name: by abstract execution of the two
+    functions that walk a class hierarchy"""
+    am = repo.cls(A + "ArrayMap")
+    se = repo.cls(E + "SimulatedEBPF")
+    sym = se.qualname + ".__init__"
+    init = se.methods["__init__"]
+    chk.analysed(sym)
+    bad = []
+    for order in (0, 1):
+        calls = []
+
+        def mkmap(tag, size):
+            def collect(*a):
+                calls.append(tag)
+                return size
+            return Obj(am, {"collect": ("hook", collect)})
+        M1, M2, M0, M3 = (mkmap("derived a", 8), mkmap("derived b", 16),
+                          mkmap("shadowed a", 24), mkmap("base c", 32))
+        dd = {"a": M1, "b": M2, "x": 5} if order == 0 else \
+            {"x": 5, "b": M2, "a": M1}
+        arrays = []
+
+        def get_array(size):
+            arrays.append(size)
+            return ("array", size)
+        me = Obj(se, {"__class__": Obj(None, {"__name__": "D", "__mro__": (
+            Obj(None, {"__dict__": dd}),
+            Obj(None, {"__dict__": {"a": M0, "c": M3}}))}),
+            "get_array": ("hook", get_array)})
+        try:
+            Evaluator(repo, se.module, se).call_function(init, [me], cls=se)
+        except (Unknown, Raised) as e:
+            raise AnalysisError(f"{sym}: cannot be evaluated: {e}")
+        got = {k: me.fields.get(k) for k in "abc"}
+        want = {"a": ("array", 8), "b": ("array", 16), "c": ("array", 32)}
+        if got != want or sorted(calls) != ["base c", "derived a",
+                                            "derived b"]:
+            bad.append(f"maps laid out: {calls}; arrays: {got}")
+    chk.ob("R08.3", sym, "each visible map is laid out once, the most "
+           "derived declaration of a name wins", not bad, init,
+           "; ".join(bad[:2]) or "a map attribute overridden in a subclass "
+           "is collected once; the shadowed declaration is not")
+    chk.analysed(am.qualname + ".collect")
 
 
 def bases(chk, repo):
